@@ -472,15 +472,14 @@ pub fn run(rep: &mut Report) {
     for (name, q, alpha, d) in families(quick) {
         let t0 = Instant::now();
         let n = circuit_count(alpha.len(), d);
-        let stats = sweep_range(n, |st, idx| {
-            watch_begin(idx, 1);
+        // dedicated threads: the scripted sampler's trace is per-thread state and `-p` runs nested parallel sections
+        let stats = crate::sweep_range_dedicated(n, |st, idx| {
             let c = circuit_at(q, &alpha, d, idx);
             judge_sampling(st, &c, 1);
             // two consecutive shots share one decomposer: on a stride of the family
             if idx % 7 == 0 {
                 judge_sampling(st, &c, 2);
             }
-            watch_end();
         });
         rep.absorb(&format!("sampling {}", name), "the full outcome tree of `quizx sim -s 1` (and -s 2 on every 7th circuit) for every method / parallel configuration: each draw's probability vs the conditional Born probability, every printed sample has non-zero probability", true, None, t0, stats);
     }
